@@ -137,6 +137,52 @@ def element_counts(chk, rng, n):
     chk.dist['element_count_cases'] = done
 
 
+def standalone(chk, rng, n):
+    """a textual leaf in an element that belongs to no message is encoded with the delimiters of the element's OWN version (from 2.7 on that
+    set includes the truncation character): no delimiter of that set comes out unescaped, whatever kind of element holds the leaf"""
+    import hl7apy
+    from hl7apy.core import SubComponent, Component, Field, Segment
+    from hl7apy.consts import VALIDATION_LEVEL
+    done = 0
+    versions = sorted(hl7apy.SUPPORTED_LIBRARIES)
+    for _ in range(n):
+        v = rng.choice(versions)
+        ec = hl7apy.get_default_encoding_chars(v)
+        v27 = 'TRUNCATION' in ec
+        ds = delims(ec, v27)
+        alpha = ds * 2 + [ec['ESCAPE']] + list('LFab1 ')
+        s = ''.join(rng.choice(alpha) for _ in range(rng.randint(1, 8)))
+        kind = rng.choice(['SubComponent', 'Component', 'Field', 'Segment'])
+        try:
+            lib = hl7apy.load_library(v)
+            val = lib.BASE_DATATYPES['ST'](s, validation_level=VALIDATION_LEVEL.TOLERANT)
+            if kind == 'SubComponent':
+                e = SubComponent(datatype='ST', version=v)
+                e.value = val
+            elif kind == 'Component':
+                e = Component(datatype='ST', version=v)
+                e.value = val
+            elif kind == 'Field':
+                e = Field(datatype='ST', version=v)
+                e.value = val
+            else:
+                e = Segment('NTE', version=v)
+                e.nte_3.value = val
+            out = e.to_er7()
+        except Exception as ex:  # noqa
+            chk.notes.append('standalone: %s on %r (%s %s)' % (type(ex).__name__, s, kind, v))
+            continue
+        done += 1
+        chk.evals += 1
+        body = out[4:].lstrip(ec['FIELD']) if kind == 'Segment' else out
+        if any(d in body for d in ds):
+            chk.fail(None, {'clause': 'delimiter-free (element outside a message)', 'element': kind, 'version': v, 'value': s, 'encoded': out,
+                            'delimiters': ''.join(ds)},
+                     {'api': "e = %s(datatype='ST', version=v) (Segment('NTE', version=v).nte_3 for a segment); e.value = ST(value); e.to_er7()" % kind,
+                      'version': v, 'element': kind, 'value': s})
+    chk.dist['standalone_element_cases'] = done
+
+
 def run(tier, seed):
     chk = vlib.Check('C06', tier, seed)
     rng = chk.rng
@@ -189,6 +235,7 @@ def run(tier, seed):
     for c, o, mo in zip(cases, impl, model):
         oracle(chk, c[0], c[1], c[2], c[3], o, mo, c[4])
     element_counts(chk, rng, 60 if tier == 'quick' else 600)
+    standalone(chk, rng, 200 if tier == 'quick' else 3000)
     chk.exhaustive = False
     chk.rule = ('(a) all strings of length <= %d over {escape, field, component, F, E, L, a, truncation} for %d delimiter sets (exhaustive part: %d cases); '
                 '(b) %d random strings (length 1-40) per delimiter set over delimiters+escape+HNFSTREL+filler for %d valid punctuation sets; '
